@@ -115,11 +115,55 @@ func refsEscape(v ssa.Value, isArr bool) bool {
 			if refsEscape(r, false) {
 				return true
 			}
+		case *ssa.MakeClosure:
+			// captured by a closure that only reads the variable (never assigns it, never passes its
+			// address on): the variable keeps behaving like a local of this function
+			if isArr {
+				return true
+			}
+			cf, _ := r.Fn.(*ssa.Function)
+			if cf == nil {
+				return true
+			}
+			for i, b := range r.Bindings {
+				if b == v && (i >= len(cf.FreeVars) || !freeVarReadOnly(cf.FreeVars[i], 0)) {
+					return true
+				}
+			}
 		default:
 			return true
 		}
 	}
 	return false
+}
+
+func freeVarReadOnly(fv *ssa.FreeVar, depth int) bool {
+	refs := fv.Referrers()
+	if refs == nil || depth > 3 {
+		return false
+	}
+	for _, r := range *refs {
+		switch r := r.(type) {
+		case *ssa.UnOp:
+			if r.Op != token.MUL {
+				return false
+			}
+		case *ssa.DebugRef:
+		case *ssa.MakeClosure:
+			cf, _ := r.Fn.(*ssa.Function)
+			if cf == nil {
+				return false
+			}
+			for i, b := range r.Bindings {
+				if b == fv && (i >= len(cf.FreeVars) || !freeVarReadOnly(cf.FreeVars[i], depth+1)) {
+					return false
+				}
+			}
+		default:
+			return false
+		}
+	}
+	return true
 }
 
 // ---------- loops ----------
@@ -562,7 +606,7 @@ func (vc *VC) loopInvariants(fr *Frame, li *loopInfo) []invariant {
 			}})
 		}
 	}
-	if fr.top && fr.con != nil && len(fr.con.Modifies) > 0 && vc.next0 != "" && !fr.con.Flags["noloopframe"] {
+	if fr.top && fr.con != nil && fr.con.HasMod && vc.next0 != "" && !fr.con.Flags["noloopframe"] {
 		// the function's frame holds at every loop head: objects that existed at entry differ from
 		// their entry values only as the modifies clauses allow (checked on entry and at every back
 		// edge like any invariant; lets targeted or whole-variable havoc keep the frame)
